@@ -14,8 +14,8 @@ namespace Dec.Static
 theorem all_translated3 : Dec.Gen.Code3.untranslated.isEmpty = true := by
   decide +kernel
 
-/-- the 20 functions of `translate/whitelist3.txt` are all there -/
-theorem translated3_count : Dec.Gen.Code3.translated.length = 20 := by
+/-- the 24 functions of `translate/whitelist3.txt` (20 of d128.rs, 4 digit-group helpers of bid128_2_str_macros.rs) are all there -/
+theorem translated3_count : Dec.Gen.Code3.translated.length = 24 := by
   decide +kernel
 
 /-- 35 glue entry points (operators by value and by reference, compound assignments, `Neg`, integer / `u128` conversions,
